@@ -97,7 +97,7 @@ def run(ctx):
             names += ['await_fork', 'random_ops', 'seclist', 'conv']
         cfgs = [(3, 1), (2, 0), (5, 2)] if ctx.quick else [(2, 0), (3, 0), (3, 1), (4, 1), (5, 1), (5, 2)]
         runs = corpus_check(ctx, 'C35', names, cfgs, nrand=3 if ctx.quick else 10,
-                            budget_events=90000 if ctx.quick else 1500000, clauses=CLAUSES, nfam=4,
+                            budget_events=90000 if ctx.quick else 500000, clauses=CLAUSES, nfam=4,
                             extra_progs=extra)
         nb = sum(1 for r in runs for e in r['events'] if e['ev'] == 'barrier_out')
         nc = sum(1 for r in runs for e in r['events'] if e['ev'] == 'close')
